@@ -74,7 +74,7 @@ Proof.
   assert (Hsafe : 0 <= safe <= cap s - get_size s).
   { unfold safe, min_sz. rewrite sz_id by lia. destruct (cap s - get_size s <? count) eqn:E; lia. }
   rewrite sz_id in H by lia.
-  assert (Hfin := H). apply (finish s b _ s' I Hb ltac:(lia)) in Hfin as (K & G).
+  assert (Hfin := H). apply (finish s b (get_size s + safe) s' I Hb ltac:(lia)) in Hfin as (K & G).
   split; [exact K|]. split; [lia|].
   (* the characters below the old size: untouched by the terminator write of unsafe_set_size *)
   destruct (unsafe_set_size_ok (with_buf s b) (get_size s + safe)) as (s2 & E3 & _ & _ & _ & _ & _ & Hf);
@@ -99,7 +99,7 @@ Proof.
 Qed.
 
 Lemma keeps_trans s1 s2 s3 : keeps s1 s2 -> keeps s2 s3 -> keeps s1 s3.
-Proof. unfold keeps. intros (I2 & C2 & K2) (I3 & C3 & K3). repeat split; congruence. Qed.
+Proof. unfold keeps. intros (I2 & C2 & K2) (I3 & C3 & K3). split; [exact I3|split; congruence]. Qed.
 
 Lemma keeps_refl s : inv s -> keeps s s.
 Proof. unfold keeps. tauto. Qed.
@@ -126,9 +126,9 @@ Proof.
   { rewrite !app_length, firstn_length. unfold sub. rewrite !firstn_length, !skipn_length. lia. }
   split.
   - rewrite !app_length, firstn_length. unfold sub. rewrite !firstn_length, !skipn_length. lia.
-  - rewrite !app_assoc. rewrite <- !app_assoc in Hlen.
-    rewrite skipn_app. rewrite <- !app_assoc. rewrite Hlen, Nat.sub_diag. cbn [skipn].
-    rewrite skipn_all2 by lia. reflexivity.
+  - replace (firstn f b ++ sub b m l ++ sub b f m ++ skipn l b)
+      with ((firstn f b ++ sub b m l ++ sub b f m) ++ skipn l b) by (rewrite <- !app_assoc; reflexivity).
+    rewrite skipn_app, Hlen, Nat.sub_diag. rewrite skipn_all2 by lia. reflexivity.
 Qed.
 
 Lemma znth_of_skipn (b b' : list Z) n j : skipn n b' = skipn n b -> (n <= Z.to_nat j)%nat -> znth b' j = znth b j.
@@ -149,7 +149,7 @@ Proof.
   destruct (rotate_buf _ _ _ _) as [b| | |] eqn:E2; cbn [rbind] in H; try discriminate.
   inversion H; subst s'; clear H.
   pose proof K1 as (I1 & C1 & _). pose proof I1 as (Hc1 & Hl1 & Hs1 & Ht1).
-  destruct (rotate_buf_spec _ _ _ _ _ ltac:(lia) ltac:(lia) E2) as (Hlen & Htail).
+  destruct (rotate_buf_spec (buf s1) pos (get_size s) (get_size s1) b ltac:(lia) ltac:(lia) E2) as (Hlen & Htail).
   destruct (inv_with_buf s1 b I1 Hlen) as (K2 & _).
   - apply (znth_of_skipn _ _ _ _ Htail). lia.
   - rewrite (znth_of_skipn _ _ _ _ Htail) by lia. exact Ht1.
@@ -162,7 +162,7 @@ Proof.
   induction n as [|n IH]; intros s index ch s' I Hi H; cbn [insert_fill_loop] in H.
   - inversion H; subst. apply keeps_refl. exact I.
   - destruct (insert_impl_m s index [ch] 1) as [s1| | |] eqn:E; cbn [rbind] in H; try discriminate.
-    pose proof (insert_impl_keeps _ _ _ _ _ I Hi ltac:(unfold szt; lia) E) as K1.
+    pose proof (insert_impl_keeps s index [ch] 1 s1 I Hi ltac:(unfold szt; lia) E) as K1.
     eapply keeps_trans; [exact K1|]. eapply IH; [apply K1|exact Hi|exact H].
 Qed.
 
@@ -177,7 +177,7 @@ Proof.
   destruct (distance <=? get_size s - start) eqn:E2; [|discriminate].
   rewrite (sz_id (start + distance)) in H by lia.
   destruct (rotate_buf _ _ _ _) as [b| | |] eqn:E3; cbn [rbind] in H; try discriminate.
-  destruct (rotate_buf_spec _ _ _ _ _ ltac:(lia) ltac:(lia) E3) as (Hlen & _).
+  destruct (rotate_buf_spec (buf s) start (start + distance) (get_size s) b ltac:(lia) ltac:(lia) E3) as (Hlen & _).
   apply (finish s b _ s' I Hlen (sz_nonneg _)) in H. tauto.
 Qed.
 
@@ -191,7 +191,8 @@ Lemma erase_keeps s index count s' : inv s -> szt index -> szt count ->
   erase_m s index count = Ok s' -> keeps s s'.
 Proof.
   intros I Hi Hc H. unfold erase_m in H.
-  eapply erase_range_keeps; try eassumption. apply min_sz_szt; [exact Hc|apply sz_szt].
+  apply (erase_range_keeps s index (min_sz count (sz (get_size s - index))) s' I Hi); [|exact H].
+  apply min_sz_szt; [exact Hc|apply sz_szt].
 Qed.
 
 Lemma resize_keeps s count ch s' : inv s -> szt count -> resize_m s count ch = Ok s' -> keeps s s'.
@@ -200,7 +201,7 @@ Proof.
   destruct (get_size s >? count) eqn:E.
   - destruct (unsafe_set_size s count) as [s1| | |] eqn:E1; cbn [rbind] in H; try discriminate.
     replace s with (with_buf s (buf s)) in E1 at 1 by (destruct s; reflexivity).
-    unfold szt in Hc. apply (finish s (buf s) _ s1 I eq_refl ltac:(lia)) in E1 as (K1 & _).
+    unfold szt in Hc. apply (finish s (buf s) count s1 I eq_refl ltac:(lia)) in E1 as (K1 & _).
     destruct (get_size s1 <? count).
     + eapply keeps_trans; [exact K1|]. eapply append_fill_keeps; [apply K1|exact H].
     + inversion H; subst. exact K1.
@@ -237,8 +238,8 @@ Proof.
   assert (Hll : zlen (firstn (Z.to_nat len) src) = len).
   { unfold zlen in *. rewrite firstn_length. lia. }
   destruct (inv_with_buf s1 b I1 (write_range_len _ _ _ _ E3)) as ((I2 & C2 & K2) & _).
-  - apply (write_range_other _ _ _ _ _ E3); try lia. right. rewrite Hll. lia.
-  - rewrite (write_range_other _ _ _ _ _ E3); try lia. right. rewrite Hll. lia.
+  - apply (write_range_other _ _ _ _ _ E3); lia.
+  - rewrite (write_range_other _ _ _ _ _ E3) by lia. exact Ht1.
   - split; [exact I2|]. split; congruence.
 Qed.
 
@@ -251,7 +252,7 @@ Proof.
   assert (Hck0 : ckind (default_str c ck) = ck) by (unfold default_str; destruct (c <? 16); reflexivity).
   destruct (write_range _ _ _) as [b| | |] eqn:E1; cbn [rbind] in H; try discriminate.
   unfold szt in Hcnt.
-  apply (finish _ b _ s' I0 (write_range_len _ _ _ _ E1) ltac:(lia)) in H as ((I1 & C1 & K1) & _).
+  apply (finish _ b count s' I0 (write_range_len _ _ _ _ E1) ltac:(lia)) in H as ((I1 & C1 & K1) & _).
   split; [exact I1|]. split; congruence.
 Qed.
 
@@ -303,10 +304,10 @@ Proof.
   - eapply append_fill_keeps; eassumption.
   - eapply append_ptr_keeps; eassumption.
   - eapply append_range_keeps; eassumption.
-  - destruct W. eapply insert_impl_keeps; eassumption.
-  - destruct W as (W1 & W2). unfold insert_fill_m in H. eapply insert_fill_loop_keeps; eassumption.
-  - destruct W. eapply erase_keeps; eassumption.
-  - destruct W. eapply erase_range_keeps; eassumption.
+  - destruct W as (W1 & W2). exact (insert_impl_keeps _ _ _ _ _ I W1 W2 H).
+  - destruct W as (W1 & W2). unfold insert_fill_m in H. exact (insert_fill_loop_keeps _ _ _ _ _ I W1 H).
+  - destruct W as (W1 & W2). exact (erase_keeps _ _ _ _ I W1 W2 H).
+  - destruct W as (W1 & W2). exact (erase_range_keeps _ _ _ _ I W1 W2 H).
   - eapply resize_keeps; eassumption.
   - apply ctor_ptr_inv in H; [|exact Hc]. unfold keeps. tauto.
   - apply ctor_fill_inv in H; [|exact Hc|exact W]. unfold keeps. tauto.
